@@ -289,7 +289,8 @@ class AsyncServer(base_server.BaseServer):
                 # transport must be one of 'polling' or 'websocket'.
                 # if 'websocket', the HTTP_UPGRADE header must match.
                 if transport == 'polling' \
-                        or transport == upgrade_header == 'websocket':
+                        or transport == upgrade_header == 'websocket' \
+                        and self._async['websocket'] is not None:
                     r = await self._handle_connect(environ, transport,
                                                    jsonp_index)
                 else:
